@@ -1433,10 +1433,14 @@ def check_c12(tier, seed, log=print):
     # source types decide differently at run time
     def bumps(d):
         return any(l.cb in (20, 21, 22) for l in d.leaves)
-    first = [d for d in allb if bumps(d)][:4] + [d for d in allb if mode_sensitive(d) and not bumps(d)]
+    # (every hand-written mode-sensitive definition is taken, those with subpatterns first: twice already a definition added for a
+    # missed change had slipped out of the quick selection again when others were added in front of it)
+    ms = [d for d in allb if mode_sensitive(d) and not bumps(d)]
+    ms_fixed = sorted([d for d in ms if d.origin.startswith('fixed:')], key=lambda d: not d.subpatterns)
+    first = [d for d in allb if bumps(d)][:4] + ms_fixed + [d for d in ms if not d.origin.startswith('fixed:')]
     rest = [d for d in allb if not mode_sensitive(d) and not bumps(d)] + [d for d in allb if bumps(d)][4:]
-    lim = 22 if tier == 'quick' else 140
-    base = (first[: lim - 6] + rest)[:lim]
+    lim = max(22, 4 + len(ms_fixed) + 4) if tier == 'quick' else 140
+    base = (first[: lim - 2] + rest)[:lim]
     twins = []
     for d in base:
         t = copy.deepcopy(d)
